@@ -27,6 +27,14 @@ class Payloads:
         self.n += 1
         k = kind or self.rng.choice(self.kinds)
         r = self.rng
+        # the two payloads that cannot carry a counter: the empty text and
+        # the empty binary message, at most once each per stream
+        if kind is None and r.random() < 0.04:
+            used = self.__dict__.setdefault('_empties', set())
+            e = r.choice(['s', 'b'])
+            if e in self.kinds and e not in used:
+                used.add(e)
+                return {'k': e, 'v': ''}
         if k == 's':
             tail = r.choice(['', 'x', ' hello', '"q"', '{"a":1}', '[1]', '12',
                              'null', 'é中', 'b64', '\x1fz', '1e5',
@@ -368,7 +376,12 @@ def raw_body(rng, cpay, p):
             parts.append('b' + _b.b64encode(bytes.fromhex(v)).decode())
         else:
             parts.append(v)
-    return '\x1e'.join(parts)
+    body = '\x1e'.join(parts)
+    if rng.random() < p.get('p_form_body', 0.12):
+        # the form-encoded variant of a body (JSONP clients): blanks as '+'
+        import urllib.parse as _u
+        body = 'd=' + _u.quote_plus(body)
+    return body
 
 
 def raw_frames(rng, cpay, p):
